@@ -150,6 +150,13 @@ void OPNMIDIplay::applySetup()
     synth.reset(m_setup.emulator, m_setup.PCM_RATE, static_cast<OPNFamily>(chipType), this);
     m_chipChannels.clear();
     m_chipChannels.resize(synth.m_numChannels, OpnChannel());
+    // The chips were re-created silent: forget the notes that were using the old chip channels
+    for(size_t c = 0; c < m_midiChannels.size(); ++c)
+    {
+        m_midiChannels[c].activenotes.clear();
+        m_midiChannels[c].gliding_note_count = 0;
+        m_midiChannels[c].extended_note_count = 0;
+    }
     resetMIDIDefaults();
 #if defined(OPNMIDI_MIDI2VGM) && !defined(OPNMIDI_DISABLE_MIDI_SEQUENCER)
     m_sequencerInterface->onloopStart = synth.m_loopStartHook;
@@ -171,6 +178,13 @@ void OPNMIDIplay::partialReset()
     synth.reset(m_setup.emulator, m_setup.PCM_RATE, synth.chipFamily(), this);
     m_chipChannels.clear();
     m_chipChannels.resize(synth.m_numChannels);
+    // Same as in applySetup(): panic leaves too-short drum notes pending, they must not outlive their channels
+    for(size_t c = 0; c < m_midiChannels.size(); ++c)
+    {
+        m_midiChannels[c].activenotes.clear();
+        m_midiChannels[c].gliding_note_count = 0;
+        m_midiChannels[c].extended_note_count = 0;
+    }
     resetMIDIDefaults();
 #if defined(OPNMIDI_MIDI2VGM) && !defined(OPNMIDI_DISABLE_MIDI_SEQUENCER)
     m_sequencerInterface->onloopStart = synth.m_loopStartHook;
